@@ -211,6 +211,23 @@ class Function:
         self.local_by_did = {l["did"]: l for l in d.get("locals", [])}
         for p in self.params:
             self.local_by_did.setdefault(p["did"], {"name": p["name"], "did": p["did"], "t": p["t"], "param": True})
+        # copies of a single-exit `return result;` (inline.split_returns): where the one definition that reaches a copy is a constant,
+        # the copy returns that constant
+        for n in self.nodes:
+            if n.d["k"] == "ReturnStmt" and (n.d.get("split_of") is not None or n.d.get("split_root")) and n.kids and n.kids[0] is not None:
+                v = strip(n.kids[0])
+                if v is not None and v.k == "DeclRefExpr" and v.dk == "local" and v.did and v.d.get("cv") is None:
+                    rd = self.reaching_def(v)
+                    c = strip(rd).cv if rd is not None and strip(rd) is not None else None
+                    if c is None and rd is not None:
+                        c = rd.cv
+                    if c is not None:
+                        m = n.kids[0]
+                        while m is not None:
+                            m.d["cv"] = c
+                            if m is v:
+                                break
+                            m = m.kids[0] if m.kids else None
 
     # ------------------------------------------------------------------ basics
     def __repr__(self):
@@ -342,6 +359,11 @@ class Function:
                 if v is None:
                     break
                 leaf, pol = norm_cond(v, pol)
+                if leaf is strip(v):
+                    leaf = v          # keep the conversion nodes around a plain value (rules recognise loads by their cast node)
+                    if strip(v).k != "DeclRefExpr":
+                        break
+                    leaf = strip(v)
             else:
                 break
         return (leaf, pol)
@@ -525,6 +547,30 @@ class Function:
                     if p is not None and (p.k in ("CallExpr", "AtomicExpr") or (p.k == "DeclStmt" and p.synthetic == "param")):
                         site = p   # (a pointer parameter of an inlined helper: bound after all arguments were evaluated)
                     d.setdefault(r.did, []).append(("addr", site, None))
+        # a store through a pointer local that only ever holds the address of one local (`T* const out = &x; ... *out = v;` -- the
+        # out-parameter of an inlined helper) is an assignment to that local
+        def sole_target(pdid):
+            evs = [e for e in d.get(pdid, []) if e[0] != "decl"]
+            if len(evs) != 1 or evs[0][0] not in ("init", "assign") or evs[0][2] is None:
+                return None
+            v = strip(evs[0][2])
+            if v is not None and v.k == "UnaryOperator" and v.op == "&":
+                t = strip(v.kids[0], casts=False)
+                if t is not None and t.k == "DeclRefExpr" and t.did and t.dk in ("local", "param"):
+                    return t.did
+            return None
+        extra = []
+        for n in self.nodes:
+            if n.d["k"] == "BinaryOperator" and n.op == "=":
+                t = strip(n.kids[0], casts=False)
+                if t is not None and t.k == "UnaryOperator" and t.op == "*":
+                    p = strip(t.kids[0])
+                    if p is not None and p.k == "DeclRefExpr" and p.did and p.dk == "local":
+                        x = sole_target(p.did)
+                        if x is not None:
+                            extra.append((x, ("assign", n, n.kids[1])))
+        for x, e in extra:
+            d.setdefault(x, []).append(e)
         self._defs = d
         return d
 
@@ -822,6 +868,9 @@ def norm_cond(n, pol=True):
             n = n.kids[0]
             pol = not pol
             continue
+        if n.k == "BinaryOperator" and n.op == ",":
+            n = n.kids[1]          # the value of a comma expression is its right operand
+            continue
         if n.k == "BinaryOperator" and n.op in ("!=", "=="):
             a, b = strip(n.kids[0]), strip(n.kids[1])
             za, zb = _is_zero_literal(a), _is_zero_literal(b)
@@ -882,6 +931,7 @@ class Program:
                 self.functions[key] = f
         self._cg = None
         self._addr_taken = None
+        self._expanded = {}
 
     def rel(self, path):
         for root in (self.repo + os.sep, "/verif/"):
@@ -896,6 +946,32 @@ class Program:
         if f is None:
             raise AnalysisBroken("anchor function `%s` not found in the analysed units" % name)
         return f
+
+    def expanded(self, name, callees, file=None):
+        """`name` with its direct calls to the (census) functions `callees` replaced by their bodies: for rules about a function that may
+        delegate part of its work to a sibling API function (receive -> try_receive).  Returns the plain function when it calls none."""
+        import copy
+        import inline
+        f = self.fn(name, file)
+        if not any(c.callee in callees for c in f.calls()):
+            return f
+        key = ("expanded", name, tuple(sorted(callees)))
+        if key in self._expanded:
+            return self._expanded[key]
+        fd = copy.deepcopy(f.d)
+        serial = 9000
+        for _ in range(4):
+            todo = [i for i, n in enumerate(fd["nodes"]) if n["k"] == "CallExpr" and n.get("callee") in callees and not n.get("_inlined")]
+            if not todo:
+                break
+            for cid in todo:
+                g = self.fn(fd["nodes"][cid]["callee"])
+                serial += 1
+                if not inline.inline_one(fd, cid, g.d, serial):
+                    fd["nodes"][cid]["_inlined"] = "skipped"
+        nf = Function(self, fd, f.unit)
+        self._expanded[key] = nf
+        return nf
 
     def has_fn(self, name):
         return name in self.functions
